@@ -193,6 +193,13 @@ func c12Edits(root *tnode) []c12Edit {
 					out = append(out, c12Edit{desc: fmt.Sprintf("group-to-repeated %s.%s", path, f.name), class: "incompat:group-to-repeated:" + f.kind,
 						apply: replace(si, fi, rg), incompat: fpath})
 					for _, a := range []*tnode{leaf("NewOpt", "ptrint64"), leaf("NewReq", "int32")} {
+						dup := false
+						for _, g := range f.fields {
+							dup = dup || g.name == a.name // already added by an earlier edit
+						}
+						if dup {
+							continue
+						}
 						ra := rg.clone()
 						ra.fields = append([]*tnode{a}, ra.fields...)
 						out = append(out, c12Edit{desc: fmt.Sprintf("group-to-repeated+add %s.%s.%s", path, f.name, a.name), class: "incompat:group-to-repeated+add:" + f.kind + ":" + a.kind,
